@@ -146,8 +146,19 @@ func (d *Driver) replayNative(pkgPath string, scripts []string, harnessOf map[st
 			fmt.Fprintf(&sb, "%s %s\n", h[i+1:], s)
 		}
 		os.WriteFile(listFile, []byte(sb.String()), 0o644)
-		cmd := exec.Command("go", "test", "-tags=verif", "-vet=off", "-count=1", "-v", "-overlay", ovJSON, "-run", "^TestZZReplay$", "-timeout", "600s", "./"+rel)
-		cmd.Dir = repoDir
+		// build the test binary once (a purely virtual package directory cannot be chdir'ed into by
+		// `go test`), then run it from the temp dir
+		bin := filepath.Join(tmp, "replay.test")
+		if round == 0 {
+			bcmd := exec.Command("go", "test", "-tags=verif", "-vet=off", "-c", "-o", bin, "-overlay", ovJSON, "./"+rel)
+			bcmd.Dir = repoDir
+			bcmd.Env = goEnv()
+			if bout, err := bcmd.CombinedOutput(); err != nil {
+				return results, fmt.Errorf("native replay build failed:\n%s", trunc(string(bout), 3000))
+			}
+		}
+		cmd := exec.Command(bin, "-test.run", "^TestZZReplay$", "-test.v", "-test.timeout", "600s")
+		cmd.Dir = tmp
 		cmd.Env = append(goEnv(), "ZZ_SCRIPTS="+listFile)
 		var out bytes.Buffer
 		cmd.Stdout = &out
